@@ -257,6 +257,10 @@ def run(ctx):
             ok = True
     ctx.ob('R10.8', 'parquet_thrift.__getattr__:maps-X-to-from_fields-thrift_name-X', ok,
            'parquet_thrift.X(...) must build struct X', 'fastparquet/parquet_thrift/__init__.py:1')
+    # shared with C16: the in-memory update of foreign/own metadata touches only the named entries
+    from . import c16
+    c16.r162(ctx, repo['writer'], repo['util'])
+    c16.r166(ctx, repo['util'])
     ctx.exhaustive = True
 
 
